@@ -111,6 +111,22 @@ def dmrg_case(ctx, idx, rng):
             seq = np.array([E_start] + local)
             ctx.close('monotone.every-local-step', max(0.0, float(np.max(np.diff(seq)))), TOL * nH, 'a local step raised the energy', detail)
             ctx.event('local_steps', len(local))
+    # history: the Hamiltonian held by the same MPO object is changed in place (rescaled by c), then DMRG is run again on the same state:
+    # everything must refer to the Hamiltonian as it is now
+    if tol_split == 0 and idx % 3 == 1:
+        c = float(rng.choice([0.5, 2.0, -1.0]))
+        H.A[int(rng.integers(0, L))] *= c
+        mH2 = refs.dense_operator(H.A)
+        v_b = refs.dense_state(psi.A)
+        E_b = float(np.real(np.vdot(v_b, mH2 @ v_b)))
+        en3, local3 = run_dmrg(ctx, H, psi, two, 1, numiter, 0.0, detail, integ)
+        v_a = refs.dense_state(psi.A)
+        ctx.close('after-inplace-change-of-H.energy==last-reported', abs(float(np.real(np.vdot(v_a, mH2 @ v_a))) - en3[-1]), TOL * nH * abs(c) + TOL,
+                  'after an in-place change of the MPO the reported energy is not the energy of the returned state under the current Hamiltonian', detail)
+        ctx.close('after-inplace-change-of-H.upper-bound', max(0.0, float(en3.max() - E_b)), TOL * nH * max(abs(c), 1), 'energy above the start energy under the current Hamiltonian', detail)
+        if local3:
+            ctx.close('after-inplace-change-of-H.monotone', max(0.0, float(np.max(np.diff(np.array([E_b] + local3))))), TOL * nH * max(abs(c), 1), 'a local step raised the energy', detail)
+        return
     # repeated invocation never raises the energy
     if tol_split == 0 and idx % 3 == 0:
         en2, local2 = run_dmrg(ctx, H, psi, two, 1, numiter, 0.0, detail, integ)
